@@ -57,6 +57,12 @@ def oracle(case, r):
         # code that does not catch BaseException cannot survive the termination
         return ('abandoned-thread-still-running', 'the timed-out student thread of %r is still running a second after the next execution '
                 'finished although the program never catches BaseException' % case['name'])
+    lr = r.get('later_result')
+    if lr is not None and 'swallow-base' not in case['name'] and 'acquire' not in case['program']:
+        if 'raised' in lr:
+            return ('later-result-unusable', 'after the timeout, run/call/get_context/assert_equal on a later result raised %s' % lr['raised'])
+        if not (lr['value_ok'] and lr['context_is_the_call'] and lr['assert_equal_passes']) or lr['new_feedback']:
+            return ('later-result-unusable', 'after the timeout a later call() result is not usable: %s' % lr)
     if r['exception_after_next'] is not None:
         return ('next-exception', 'the next (clean) execution ends with exception %s' % r['exception_after_next'])
     if r['patch_depth'] or r['stdout_depth'] or not r['stdout_restored']:
